@@ -261,7 +261,7 @@ def run(ctx):
     ctx.level = 'other'
     ctx.drop('type annotations', 'docstrings')
     ctx.trust('paper lemma L-HINTIKKA (DESIGN.md §4): backward exactness of every rule + model-builder value on open literal sets + compositional evaluator (C08) + saturation imply that the model read from a limit-free open branch satisfies every node on it',
-              'helper state contracts used by the saturation obligations: NodeConsts[branch][node] = constants of the branch not yet applied to the node; NodesWorlds[branch] = (node, world) pairs already applied; WorldIndex[branch] = access pairs on the branch; FilterNodeCache[branch] ⊇ unticked nodes passing the rule filter (listener bodies not yet under contract)',
+              'helper state contracts used by the saturation obligations (NodeConsts, NodesWorlds, WorldIndex, FilterNodeCache) are obligations C02.helpers.*: their listener bodies are interpreted from source on finite scenario sets; what stays trusted is that EventEmitter dispatches each event to each registered listener once',
               'a branch on which MaxWorlds/MaxConsts is exceeded is treated as limit-affected even when the access rules add no flag node', 'spec/semantics.py (the oracle)')
     ctx.assume('quantifier/modal backward exactness uses the value-set abstraction (see C04)', 'CPython semantics of the interpreted subset as encoded by pyvc/interp.py')
     ctx.explanation = ('Hypotheses of L-HINTIKKA as obligations on the real code, per logic: backward exactness of every operator/quantifier/modal rule; for every rule body, '
@@ -275,6 +275,8 @@ def run(ctx):
     structs.adz_apply_obligations(ctx, 'C02')
     selection.rule_target_obligations(ctx, 'C02')
     selection.next_obligations(ctx, 'C02')
+    from checks import helpers_ob
+    helpers_ob.helper_obligations(ctx, 'C02')
     bounded_models(ctx)
     ctx.replayers['C02.'] = lambda r: dict(reproduced=None, detail='see counterexample / meta')
 
